@@ -17,7 +17,8 @@ invocation.
 Rules (one signature each).  `<path>` is a coarse label of the reply path the *request* calls
 for, computed from the case alone (never from what spyne did): success | stream (generator /
 user-set ctx.out_string) | fault (every error answer, RequestTooLong and unusable
-CONTENT_LENGTH included) | wsdl.  `<Exc>` is the exception class, except that exceptions
+CONTENT_LENGTH included) | wsdl | wsdl-error (?wsdl with an injected failure of
+build_interface_document, the documented `wsdl_exception` path).  `<Exc>` is the exception class, except that exceptions
 raised by the generated user code are bucketed as user-Fault / user-exception (their class
 is a parameter of the case, not a root cause).
 
@@ -129,6 +130,7 @@ def grid_outcomes(prot):
         {"kind": "stream-raw", "chunks": ["ab", "cde", "f"], "as": "list"},
         {"kind": "stream-raw", "chunks": ["ab", "cde", "f"], "as": "gen"},
         {"kind": "stream-raw", "chunks": [], "as": "gen"},
+        {"kind": "stream-raw", "chunks": ["p", "q", "", "r", "st"], "as": "tuple"},
     ]
     out += [{"kind": "fault", "cls": c} for c in ("Client.Custom", "Server", "NotFound")]
     out += [{"kind": "exception", "cls": "KeyError"}]
@@ -136,6 +138,7 @@ def grid_outcomes(prot):
     if is_doc(prot):
         out.append({"kind": "malformed"})
     out.append({"kind": "wsdl"})
+    out.append({"kind": "wsdl-error"})      # ?wsdl with an injected failure of WSDL generation
     return out
 
 
@@ -219,7 +222,7 @@ def hyp_cases(tier):
     def outcome(draw, prot):
         kinds = ["ok-prim", "ok-complex", "ok-void", "stream-gen", "stream-gen", "stream-raw",
                  "stream-raw", "fault", "exception", "unserializable", "validation",
-                 "unknown-method", "wsdl"] + (["malformed"] if is_doc(prot) else [])
+                 "unknown-method", "wsdl", "wsdl-error"] + (["malformed"] if is_doc(prot) else [])
         k = draw(st.sampled_from(kinds))
         if k == "ok-prim":
             return {"kind": k, "ret": draw(_TXTB)}
@@ -320,7 +323,7 @@ def build_app(case, tns, calls):
         "_type_info": [("a", Integer), ("b", Unicode), ("c", Array(Unicode))]})
     argt, rett = Unicode, Unicode
 
-    if kind in ("ok-prim", "unknown-method", "malformed", "wsdl"):
+    if kind in ("ok-prim", "unknown-method", "malformed", "wsdl", "wsdl-error"):
         ret = o.get("ret", "ok")
 
         def op(ctx, s):
@@ -414,7 +417,7 @@ def build_request(case, tns):
     kind = case["outcome"]["kind"]
     name = "nope" if kind == "unknown-method" else "op"
     arg = "zz" if kind == "validation" else case["arg"]
-    if kind == "wsdl":
+    if kind in ("wsdl", "wsdl-error"):
         return "GET", "/", "wsdl", b"", None
     if p == "xml":
         doc = '<x:%s xmlns:x="%s"><x:s>%s</x:s></x:%s>' % (name, tns, escape(arg), name)
@@ -635,20 +638,21 @@ def intended_path(kind, o):
         return "success"
     if kind in ("stream-gen", "stream-raw"):
         return "stream"
-    if kind == "wsdl":
-        return "wsdl"
+    if kind in ("wsdl", "wsdl-error"):
+        return kind
     return "fault"
 
 
 def classify(case, n, stream_len, limit, cl_text):
     """-> (expected, path)
-    expected: wsdl | bad-content-length | too-long | intended | garbled | unspecified
-    path (a label for signatures only): success | stream | fault | wsdl"""
+    expected: wsdl | not-allowed | bad-content-length | too-long | intended | garbled |
+              unspecified
+    path (a label for signatures only): success | stream | fault | wsdl | wsdl-error"""
     o = case["outcome"]
     kind = o["kind"]
     ipath = intended_path(kind, o)
-    if kind == "wsdl":
-        return "wsdl", "wsdl"
+    if kind in ("wsdl", "wsdl-error"):
+        return "wsdl", ipath
     numeric = cl_text is not None and _NUM.match(cl_text) is not None
     declared = int(cl_text) if numeric else None
     if not is_doc(case["prot"]):
@@ -657,6 +661,10 @@ def classify(case, n, stream_len, limit, cl_text):
         if numeric and declared > limit:
             return "too-long", ipath
         return "intended", ipath
+    if case["prot"] == "soap11" and case.get("ct") == "absent":
+        # Soap11 refuses a request without a Content-Type (405) before it looks at the body:
+        # a refusal for an independent reason, whatever the length
+        return "not-allowed", "fault"
     if case["cl"]["kind"] == "bad":
         return "bad-content-length", "fault"
     if numeric and declared > limit:
@@ -739,6 +747,11 @@ def run_case(case, rec):
 
     wsgi_app = WsgiApplication(app, chunked=chunked, max_content_length=limit,
                                block_length=case["block"])
+    if case["outcome"]["kind"] == "wsdl-error":
+        # fault injection: the documented `wsdl_exception` path of handle_wsdl_request
+        def _boom(url):
+            raise RuntimeError("injected failure of WSDL generation")
+        wsgi_app.doc.wsdl11.build_interface_document = _boom
     obs = Obs()
     app.event_manager.add_listener("method_context_closed",
                                    lambda ctx: obs.log.append("ctx-closed"))
@@ -860,7 +873,7 @@ def run_case(case, rec):
             bad("C13|closed-count!=1|%s" % path,
                 "method_context_closed fired %d times (iterable %s close(); exhausted=%s)"
                 % (ncl, "has" if obs.has_close else "has no", obs.exhausted))
-        if path != "wsdl" and nwc != 1:
+        if not path.startswith("wsdl") and nwc != 1:
             bad("C13|wsgi_close-count!=1|%s" % path, "wsgi_close fired %d times" % nwc)
         if obs.exhausted:
             threshold = obs.pos("chunk", last=True)
@@ -885,12 +898,12 @@ def run_case(case, rec):
             and (obs.exhausted or len(obs.chunks) > 0):
         answered_too_long = (type(status) is str and status.startswith("413")) \
             or b"RequestTooLong" in body
+    if numeric and declared > limit and expected in ("too-long", "not-allowed") and calls:
+        bad("C13|user-code-ran-on-too-long|in=%s" % family,
+            "declared length %d > max_content_length %d, but the user function ran %d times"
+            % (declared, limit, len(calls)))
     if expected == "too-long":
-        if calls:
-            bad("C13|user-code-ran-on-too-long|in=%s" % family,
-                "declared length %d > max_content_length %d, but the user function ran %d times"
-                % (declared, limit, len(calls)))
-        if obs.escaped is None and status is not None and (k is None or len(obs.chunks) > 0):
+        if obs.escaped is None and status is not None:
             ok_status = ("413",) if case["prot"] != "soap11" else ("413", "500")
             good = type(status) is str and status[:3] in ok_status \
                 and (body is None or not obs.exhausted or b"RequestTooLong" in body)
@@ -898,7 +911,7 @@ def run_case(case, rec):
                 bad("C13|too-long-not-413|in=%s" % family,
                     "declared length %d > max_content_length %d answered with %r %r"
                     % (declared, limit, status, (body or b"")[:200]))
-    elif expected != "bad-content-length" and answered_too_long:
+    elif expected not in ("bad-content-length", "not-allowed") and answered_too_long:
         within = (numeric and declared <= limit) or \
                  (not numeric and len(stream_bytes) <= limit)
         if within:
@@ -906,7 +919,7 @@ def run_case(case, rec):
                 "a request of %s bytes (max_content_length %d) was refused as too long: %r"
                 % (declared if numeric else "undeclared, %d on the wire" % len(stream_bytes),
                    limit, status))
-    if stream.returned > limit and path != "wsdl":
+    if stream.returned > limit:
         bad("C13|read-beyond-limit",
             "%d bytes were read from wsgi.input, max_content_length is %d"
             % (stream.returned, limit))
